@@ -41,6 +41,19 @@ def _callers(tree: Tree, target: FuncInfo) -> list[tuple[FuncInfo, ast.Call]]:
     return out
 
 
+DOMAIN_MARK = {"callee": COLLECT}
+
+
+def _is_intensity_poolsum(tree: Tree, fn: FuncInfo, call: ast.Call) -> bool:
+    """A PoolSum whose pools derive from collect_spin_projections: the intensity."""
+    old = DOMAIN_MARK["callee"]
+    DOMAIN_MARK["callee"] = COLLECT
+    try:
+        return derives_from_domain(tree, fn, call) is not None
+    finally:
+        DOMAIN_MARK["callee"] = old
+
+
 def derives_from_domain(tree: Tree, fn: FuncInfo, expr: ast.AST, depth: int = 0, seen=None) -> str | None:
     """Does ``expr`` (inside ``fn``) data-derive from collect_spin_projections(...) - directly
     or through a parameter that some caller binds to such a value (depth <= 3)?"""
@@ -53,8 +66,9 @@ def derives_from_domain(tree: Tree, fn: FuncInfo, expr: ast.AST, depth: int = 0,
     exprs = [expr] + [d.value for d in closure if d.value is not None]
     for e in exprs:
         for n in ast.walk(e):
-            if isinstance(n, ast.Call) and tree.callee(n, fn) == COLLECT:
-                return f"{fn.qual}: {unparse(n)}"
+            if isinstance(n, ast.Call) and tree.callee(n, fn) == DOMAIN_MARK.get("callee"):
+                if DOMAIN_MARK["callee"] == COLLECT or _is_intensity_poolsum(tree, fn, n):
+                    return f"{fn.qual}: {unparse(n)[:60]}"
     params = [d.name for d in closure if d.kind == "param" and d.name not in {"self", "cls"}]
     for p in params:
         for caller, call in _callers(tree, fn):
@@ -118,7 +132,13 @@ def check_domain(ctx: Check, tree: Tree) -> None:
     covering = []
     for fn, node in stores:
         key_expr = node.targets[0].slice if isinstance(node, ast.Assign) else (node.args[0] if node.args else node)
-        why = derives_from_domain(tree, fn, key_expr)
+        # the summation domain is the whole (unfolded) intensity - including the inner sums that
+        # a spin alignment adds - not just the outer pools: the key must derive from the PoolSum
+        DOMAIN_MARK["callee"] = "ampform.sympy::PoolSum"
+        try:
+            why = derives_from_domain(tree, fn, key_expr)
+        finally:
+            DOMAIN_MARK["callee"] = COLLECT
         what = f"{fn.qual}: `{unparse(node)[:70]}`"
         if why:
             covering.append((fn, node, why))
